@@ -186,3 +186,114 @@ def background_at_centroid(background, centroid):
     if not (isfinite(x) and isfinite(y)):
         return NAN
     return bilinear(background, x, y)
+
+
+# ------------------------------------------------------------------ local background (localbkg_width > 0)
+# Definition (SourceCatalog ``localbkg_width`` / ``_local_background`` docstrings, RectangularAnnulus, SigmaClip
+# and SExtractorBackground class documentation):
+# * the annulus of a source is the rectangular annulus centred on the centre of the bounding box whose inner
+#   rectangle is 1.5 x the bounding box and whose outer rectangle is ``2 * localbkg_width`` wider and higher; a
+#   pixel belongs to it when its *centre* lies inside the outer and not inside the inner rectangle;
+# * usable pixels: inside the image, not masked by the input mask, finite data value, segmentation label 0;
+# * fewer than 10 usable pixels -> 0; otherwise the values are sigma-clipped (3 sigma about the median, population
+#   standard deviation, at most 20 iterations) and the SourceExtractor mode estimate of the survivors is taken:
+#   2.5 median - 1.5 mean, the median when |mean - median| / std >= 0.3, the mean when std == 0;
+# * a completely masked source has local background NaN;
+# * segment_flux = sum(data[P]) - |P| * local background, min/max value = min/max(data[P]) - local background.
+# A pixel centre exactly ON a rectangle side (bounding-box extent = 2 mod 4) is a tie: all four readings (inner /
+# outer rectangle open or closed) are returned; values within 1e-9 of a clipping bound or of the 0.3 threshold
+# make the estimate ambiguous (``None`` in the returned list = "cannot be judged").
+MIN_LOCALBKG_PIXELS = 10
+
+
+def annulus_pixels(bbox, width, shape, closed_in=False, closed_out=False):
+    """Pixels (y, x) of the image whose centre lies in the rectangular annulus of the bounding box
+    (ymin, ymax, xmin, xmax: inclusive pixel indices).  All quantities are multiples of 1/4: exact."""
+    ymin, ymax, xmin, xmax = bbox
+    xc, yc = 0.5 * (xmin + xmax), 0.5 * (ymin + ymax)
+    hxi, hyi = 0.75 * (xmax - xmin + 1), 0.75 * (ymax - ymin + 1)
+    hxo, hyo = hxi + width, hyi + width
+
+    def inside(d, h, closed):
+        return d <= h if closed else d < h
+    out = []
+    for y in range(shape[0]):
+        for x in range(shape[1]):
+            dx, dy = abs(x - xc), abs(y - yc)
+            if not (inside(dx, hxo, closed_out) and inside(dy, hyo, closed_out)):
+                continue
+            if inside(dx, hxi, closed_in) and inside(dy, hyi, closed_in):
+                continue
+            out.append((y, x))
+    return out
+
+
+def _median(v):
+    s = sorted(v)
+    n = len(s)
+    return s[n // 2] if n % 2 else 0.5 * (s[n // 2 - 1] + s[n // 2])
+
+
+def _mean_std(v):
+    n = len(v)
+    mean = math.fsum(v) / n
+    return mean, math.sqrt(math.fsum((x - mean) ** 2 for x in v) / n)
+
+
+def clipped_mode(values, sigma=3.0, maxiters=20, eps=1e-9):
+    """-> (estimate or None when a clipping bound / the 0.3 threshold is met within eps, number of clipped values)."""
+    v = list(values)
+    n0 = len(v)
+    for _ in range(maxiters):
+        med = _median(v)
+        _, std = _mean_std(v)
+        lo, hi = med - sigma * std, med + sigma * std
+        scale = eps * (1.0 + abs(med) + std)
+        if any(abs(x - lo) <= scale or abs(x - hi) <= scale for x in v) and std > 0:
+            return None, n0 - len(v)
+        keep = [x for x in v if lo <= x <= hi]
+        if len(keep) == len(v):
+            break
+        v = keep
+    med = _median(v)
+    mean, std = _mean_std(v)
+    spread = max(v) - min(v)
+    if spread == 0.0:
+        return mean, n0 - len(v)
+    if std <= 1e-12 * (1.0 + abs(mean)):
+        return None, n0 - len(v)          # equal up to rounding: which branch is taken is rounding noise
+    q = abs(mean - med) / std
+    if abs(q - 0.3) <= eps:
+        return None, n0 - len(v)
+    return (med if q >= 0.3 else 2.5 * med - 1.5 * mean), n0 - len(v)
+
+
+def local_background(label, seg, data, mask, width):
+    """-> dict(values=[admissible local backgrounds; None = ambiguous], nusable=[...], tie=bool, nclipped=int).
+    ``width == 0`` -> exactly 0 (no local background)."""
+    ny, nx = len(seg), len(seg[0])
+    S = [(y, x) for y in range(ny) for x in range(nx) if seg[y][x] == label]
+    ys = [p[0] for p in S]
+    xs = [p[1] for p in S]
+    bbox = (min(ys), max(ys), min(xs), max(xs))
+    if width == 0:
+        return {'values': [0.0], 'nusable': [0], 'tie': False, 'nclipped': 0, 'footprint': []}
+    seen, vals, nus, nclip = [], [], [], 0
+    foot = set()
+    for ci in (False, True):
+        for co in (False, True):
+            pix = annulus_pixels(bbox, width, (ny, nx), ci, co)
+            foot.update(pix)
+            if pix in seen:
+                continue
+            seen.append(pix)
+            use = [data[y][x] for (y, x) in pix
+                   if seg[y][x] == 0 and isfinite(data[y][x]) and not (mask is not None and mask[y][x])]
+            nus.append(len(use))
+            if len(use) < MIN_LOCALBKG_PIXELS:
+                vals.append(0.0)
+            else:
+                est, k = clipped_mode(use)
+                nclip = max(nclip, k)
+                vals.append(est)
+    return {'values': vals, 'nusable': nus, 'tie': len(seen) > 1, 'nclipped': nclip, 'footprint': sorted(foot)}
